@@ -1,5 +1,6 @@
 import Ovsdb.Theorems.C03
 import Ovsdb.Theorems.C08
+import Ovsdb.Theorems.C10
 /-
   C03, continued: the code-shaped model and the reference interpreter
   (Spec/Rfc.lean, the oracle of the differential run) agree on conditions, and
@@ -653,4 +654,209 @@ example : ∀ u row, get? ([("u1", exRow1), ("u2", exRow2)] : AMap UUID Row) u =
       have : rowValue exRow2 u "name" = some (.atom (.str "b")) := rfl
       rw [this] at hv; cases hv; rfl
     · simp [get?] at hr
+/-- for two values of one kind: the code's "the difference is empty" is the reference's `==` -/
+theorem diff_flag_reference (cur un : Value) (hk : cur.kindTag = un.kindTag) (hc : cur.WF) (hu : un.WF) :
+    (Rfc.evalCond .eq cur un).getD false = !(difference (some cur) (some un)).2 := by
+  have hsk : cur.SameKind un := by
+    cases cur with
+    | atom a =>
+      cases un with
+      | atom b => simp [Value.SameKind]
+      | opt b => cases a <;> simp [Value.kindTag] at hk
+      | set b => cases a <;> simp [Value.kindTag] at hk
+      | map b => cases a <;> simp [Value.kindTag] at hk
+    | opt a =>
+      cases un with
+      | atom b => cases b <;> simp [Value.kindTag] at hk
+      | opt b => simp [Value.SameKind]
+      | set b => simp [Value.kindTag] at hk
+      | map b => simp [Value.kindTag] at hk
+    | set a =>
+      cases un with
+      | atom b => cases b <;> simp [Value.kindTag] at hk
+      | opt b => simp [Value.kindTag] at hk
+      | set b => simp [Value.SameKind]
+      | map b => simp [Value.kindTag] at hk
+    | map a =>
+      cases un with
+      | atom b => cases b <;> simp [Value.kindTag] at hk
+      | opt b => simp [Value.kindTag] at hk
+      | set b => simp [Value.kindTag] at hk
+      | map b => simp [Value.SameKind]
+  have h1 := C10.diff_empty_iff cur un hsk hc hu
+  have h2 := C08.valueEqB_iff cur un hk
+  have h3 : evalCond .eq cur un = .ok (valueEqB cur un) := by simp [evalCond, hk]
+  rw [evalCond_agrees_reference _ _ _ _ h3]
+  simp only [Option.getD_some]
+  rw [Bool.eq_iff_iff]
+  rw [h2, ← h1]
+  cases (difference (some cur) (some un)).2 <;> simp
+
+
+/-- one column of an `update` as the code applies it (`updateOrModifyModel`, not a modify) -/
+def updStep (ts : TableSchema) (change : OvsRow) (acc : Bool × Model × OvsRow) (c : String) :
+    Except OpErr (Bool × Model × OvsRow) :=
+  match ts.column c, get? change c with
+  | some cs, some uo =>
+    match acc.2.1.field c with
+    | none => .error .other
+    | some cur =>
+      match liftE (ovsToNative cs uo) with
+      | .error e => .error e
+      | .ok un =>
+        if (difference (some cur) (some un)).2 && !cs.mutable then .error .constraint
+        else
+          match (if (difference (some cur) (some un)).2 then
+              (match liftE (nativeToOvs cs ((difference (some cur) (some un)).1.getD un)) with
+                | .error e => .error e
+                | .ok d => .ok (insert acc.2.2 c d))
+            else (.ok acc.2.2 : Except OpErr OvsRow)) with
+          | .error e => .error e
+          | .ok delta => .ok (acc.1 || (difference (some cur) (some un)).2, acc.2.1.setField c un, delta)
+  | _, _ => .ok acc
+
+theorem updateOrModifyModel_eq (ts : TableSchema) (m : Model) (change : OvsRow) :
+    updateOrModifyModel ts m change false = (keys change).eraseDups.foldlM (updStep ts change) (false, m, []) := by
+  unfold updateOrModifyModel mergeModifyRow.mapKeysDedup
+  congr 1
+  funext acc c
+  unfold updStep
+  cases ts.column c <;> cases get? change c <;> simp only [pure, Except.pure]
+  rename_i cs uo
+  cases acc.2.1.field c <;> simp only
+  rename_i cur
+  simp only [bind, Except.bind, Bool.false_eq_true, if_false]
+  cases liftE (ovsToNative cs uo) <;> simp only
+  rename_i un
+  by_cases h1 : ((difference (some cur) (some un)).snd && !cs.mutable) = true
+  · simp only [h1, if_true]
+  · simp only [h1, if_false]
+    by_cases h2 : (difference (some cur) (some un)).snd = true
+    · simp only [h2, if_true]
+      cases liftE (nativeToOvs cs ((difference (some cur) (some un)).fst.getD un)) <;> simp only
+    · simp [h2]
+
+
+/-- the reference's step for one column of an update -/
+def refUpdStep (ts : TableSchema) (given : OvsRow) (r : Row) (c : String) : Option Row :=
+  if c = "_uuid" then some r else
+  match get? ts.cols c, get? given c with
+  | some cs, some o => do
+    let v ← (ovsToNative cs o).toOption
+    let cur ← get? r c
+    if !cs.mutable && !(Rfc.evalCond .eq cur v).getD false then none
+    pure (insert r c v)
+  | _, _ => some r
+
+theorem updateRow_eq (ts : TableSchema) (row : Row) (given : OvsRow) :
+    Rfc.updateRow ts row given = (keys given).eraseDups.foldlM (refUpdStep ts given) row := rfl
+
+/-- typing of immutable columns, as far as the comparison of old and new value needs it: stored values
+    and converted update values have the column's kind and hold no duplicates -/
+def RowTyped (ts : TableSchema) (row : Row) : Prop :=
+  ∀ c cs cur, get? ts.cols c = some cs → cs.mutable = false → get? row c = some cur →
+    cur.WF ∧ cur.kindTag = (zeroValue cs).kindTag
+
+def ValTyped (ts : TableSchema) (change : OvsRow) : Prop :=
+  ∀ c cs uo un, get? ts.cols c = some cs → cs.mutable = false → get? change c = some uo →
+    ovsToNative cs uo = .ok un → un.WF ∧ un.kindTag = (zeroValue cs).kindTag
+
+theorem updStep_refines (ts : TableSchema) (change : OvsRow) (acc acc' : Bool × Model × OvsRow) (c : String)
+    (r : Row) (hc : c ≠ "_uuid") (hrow : ∀ k, get? acc.2.1.row k = get? r k)
+    (hval : ValTyped ts change) (hrt : RowTyped ts acc.2.1.row)
+    (h : updStep ts change acc c = .ok acc') :
+    ∃ r', refUpdStep ts change r c = some r' ∧ (∀ k, get? acc'.2.1.row k = get? r' k) ∧ acc'.2.1.uuid = acc.2.1.uuid ∧
+      RowTyped ts acc'.2.1.row := by
+  unfold updStep at h
+  unfold refUpdStep
+  simp only [hc, if_false, TableSchema.column] at h ⊢
+  cases hcs : get? ts.cols c with
+  | none => simp only [hcs] at h; cases h; exact ⟨r, rfl, hrow, rfl, hrt⟩
+  | some cs =>
+    cases huo : get? change c with
+    | none =>
+      simp only [hcs, huo] at h; cases h
+      exact ⟨r, rfl, hrow, rfl, hrt⟩
+    | some uo =>
+      simp only [hcs, huo, Model.field, hc, if_false] at h
+      cases hcur : get? acc.2.1.row c with
+      | none => simp [hcur] at h
+      | some cur =>
+        simp only [hcur] at h
+        cases hun : ovsToNative cs uo with
+        | error e => simp [hun, liftE] at h
+        | ok un =>
+          simp only [hun, liftE] at h
+          split at h
+          · cases h
+          · rename_i hflag
+            split at h
+            · cases h
+            · rename_i delta _
+              simp only [Except.ok.injEq] at h
+              subst h
+              have hcur' : get? r c = some cur := by rw [← hrow c]; exact hcur
+              have hgate : (!cs.mutable && !(Rfc.evalCond .eq cur un).getD false) = false := by
+                cases hm : cs.mutable with
+                | true => simp
+                | false =>
+                  obtain ⟨hw1, hk1⟩ := hrt c cs cur hcs hm hcur
+                  obtain ⟨hw2, hk2⟩ := hval c cs uo un hcs hm huo hun
+                  rw [diff_flag_reference cur un (hk1.trans hk2.symm) hw1 hw2]
+                  simp only [hm, Bool.not_false, Bool.and_true, Bool.not_eq_true] at hflag
+                  simp [hflag]
+              refine ⟨insert r c un, ?_, ?_, ?_, ?_⟩
+              · have hg2 : ¬ (cs.mutable = false ∧ (Rfc.evalCond .eq cur un).getD false = false) := by
+                  intro ⟨h1, h2⟩; simp [h1, h2] at hgate
+                simp [Except.toOption, hcur', hun, hg2, bind, Option.bind]
+              · intro k
+                simp only [Model.setField, hc, if_false, get?_insert]
+                split
+                · rfl
+                · exact hrow k
+              · simp [Model.setField, hc]
+              · intro k cs' cur' hcs' hm' hcur''
+                simp only [Model.setField, hc, if_false, get?_insert] at hcur''
+                split at hcur''
+                · rename_i hk
+                  subst hk
+                  cases hcur''
+                  rw [hcs] at hcs'; cases hcs'
+                  exact hval k cs uo un hcs hm' huo hun
+                · exact hrt k cs' cur' hcs' hm' hcur''
+
+/-- the whole fold -/
+theorem updFold_refines (ts : TableSchema) (change : OvsRow) (l : List String) (hl : "_uuid" ∉ l)
+    (acc acc' : Bool × Model × OvsRow) (r : Row) (hrow : ∀ k, get? acc.2.1.row k = get? r k)
+    (hval : ValTyped ts change) (hrt : RowTyped ts acc.2.1.row)
+    (h : l.foldlM (updStep ts change) acc = .ok acc') :
+    ∃ r', l.foldlM (refUpdStep ts change) r = some r' ∧ (∀ k, get? acc'.2.1.row k = get? r' k) ∧
+      acc'.2.1.uuid = acc.2.1.uuid := by
+  induction l generalizing acc r with
+  | nil => simp [pure, Except.pure] at h; subst h; exact ⟨r, rfl, hrow, rfl⟩
+  | cons c t ih =>
+    simp only [List.foldlM_cons, bind, Except.bind] at h
+    split at h
+    · cases h
+    · rename_i acc1 h1
+      have hc : c ≠ "_uuid" := fun e => hl (by simp [e])
+      obtain ⟨r1, hr1, hrow1, hu1, hrt1⟩ := updStep_refines ts change acc acc1 c r hc hrow hval hrt h1
+      obtain ⟨r', hr', hrow', hu'⟩ := ih (fun e => hl (List.mem_cons_of_mem _ e)) acc1 r1 hrow1 hrt1 h
+      exact ⟨r', by simp [List.foldlM_cons, hr1, hr', bind, Option.bind], hrow', hu'.trans hu1⟩
+
+/-- **C03 (16)** an `update` replaces exactly the named columns, as the reference says:
+    whenever the code accepts the update of a row, the reference interpreter accepts it too and
+    the new row holds, column by column, what the reference's new row holds; the row keeps its
+    uuid. (Typing of immutable columns is needed to compare "the difference is empty" with the
+    reference's `==`.) -/
+theorem update_refines_reference (ts : TableSchema) (m : Model) (change : OvsRow)
+    (chg : Bool) (new : Model) (delta : OvsRow)
+    (hu : "_uuid" ∉ keys change) (hval : ValTyped ts change) (hrt : RowTyped ts m.row)
+    (h : updateOrModifyModel ts m change false = .ok (chg, new, delta)) :
+    ∃ r', Rfc.updateRow ts m.row change = some r' ∧ (∀ k, get? new.row k = get? r' k) ∧ new.uuid = m.uuid := by
+  rw [updateOrModifyModel_eq] at h
+  rw [updateRow_eq]
+  exact updFold_refines ts change _ (by rw [List.mem_eraseDups]; exact hu) (false, m, []) (chg, new, delta) m.row
+    (fun _ => rfl) hval hrt h
+
 end Ovsdb.C03
